@@ -754,8 +754,10 @@ def r_chart(m, rep, R):
         cell0 = [k for k in ch.walk() if k.kind == 'CXXRecordDecl' and k.name == 'cell' and cxx.fields_of(k)][0]
         meth = cxx.method(cell0, deleg[0])
         mpr = [p_.name for p_ in cxx.params_of(meth)]
-        rep.check(len(mpr) == 2 and deleg[1] == A_, R, _w(upd.line, 'chart::update'), 'update:delegates',
-                  'update passes the item and the chart\'s n-best flag to cell::%s' % deleg[0],
+        # the flag may be handed over as it is (keep duplicates) or negated (one per category)
+        flag_negated = deleg[1] == ('un', '!', A_)
+        rep.check(len(mpr) == 2 and (deleg[1] == A_ or flag_negated), R, _w(upd.line, 'chart::update'), 'update:delegates',
+                  'update passes the item and the chart\'s n-best flag%s to cell::%s' % (' (negated)' if flag_negated else '', deleg[0]),
                   'update calls cell::%s with %s as second argument' % (deleg[0], canon(deleg[1])))
         if len(mpr) != 2:
             return
@@ -764,8 +766,18 @@ def r_chart(m, rep, R):
         pr = [None, None, mpr[0]]
         A_ = V(mpr[1])
         cellv = ('this',)
+    else:
+        flag_negated = False
     B_ = ('mcall', cellv, 'contains', (M(V(pr[2]), 'cat'),))
     keep_ret = ('addr', ('mcall', cellv, 'emplace', (V(pr[2]),)))
+    # "was it there already" may also be what the insertion into the category set reports: S.insert(c).second is true exactly
+    # when c was not in S before (and c is in S afterwards either way)
+    cids_ = M(cellv, 'category_ids') if cellv != ('this',) else M(('this',), 'category_ids')
+    INS = [('mem', ('mcall', cids_, fn_, (M(V(pr[2]), 'cat'),)), 'second') for fn_ in ('insert', 'emplace')]
+    self_stores = {}
+    for fn_, end_ in (('push_front', 'front'), ('push_back', 'back'), ('emplace_front', 'front'), ('emplace_back', 'back')):
+        self_stores[canon(('mcall', M(cellv, 'items'), fn_, (V(pr[2]),)))] = canon(('addr', ('mcall', M(cellv, 'items'), end_, ())))
+    used_insert_result = [False]
 
     def evalc(c, env_):
         if c in env_:
@@ -785,17 +797,38 @@ def r_chart(m, rep, R):
     table = []
     for a in (False, True):
         for b in (False, True):
-            env_ = {A_: a, B_: b}
+            env_ = {A_: (not a) if flag_negated else a, B_: b}
+            for t_ in INS:
+                env_[t_] = not b
             taken = []
             for p_ in P.paths:
-                vals = [evalc(c, env_) for c, pol in p_[0]]
+                env_p = dict(env_)
+                for e_ in p_[1]:
+                    if e_[0] == 'decl' and e_[2] in INS:
+                        env_p[V(e_[1])] = not b
+                        used_insert_result[0] = True
+                vals = [evalc(c, env_p) for c, pol in p_[0]]
                 if any(v is None for v in vals):
                     ok = False
                 if all(v == pol for v, (c, pol) in zip(vals, p_[0])):
                     taken.append(p_)
             want_null = (not a) and b
-            good = len(taken) == 1 and ((taken[0][2] == LIT(None)) if want_null else (taken[0][2] is not None and canon(taken[0][2]) == canon(keep_ret))) \
-                and not [e for e in taken[0][1] if e[0] != 'decl']
+            effs_ = [e for e in taken[0][1] if e[0] != 'decl' and not (e[0] == 'decl' and e[2] in INS)] if len(taken) == 1 else []
+            # the method may store the item itself: one push of the item into `items`, the category registered (by the very
+            # insertion whose result is tested, or by a statement), a pointer to the stored copy handed back
+            stored = [canon(e) for e in effs_ if canon(e) in self_stores]
+            registered = any(e_[0] == 'decl' and e_[2] in INS for e_ in (taken[0][1] if len(taken) == 1 else [])) or any(
+                canon(e) in (canon(('mcall', cids_, 'insert', (M(V(pr[2]), 'cat'),))), canon(('mcall', cids_, 'emplace', (M(V(pr[2]), 'cat'),)))) for e in effs_)
+            others = [e for e in effs_ if canon(e) not in self_stores and canon(e) not in (
+                canon(('mcall', cids_, 'insert', (M(V(pr[2]), 'cat'),))), canon(('mcall', cids_, 'emplace', (M(V(pr[2]), 'cat'),))))]
+            if len(taken) == 1 and want_null:
+                good = taken[0][2] == LIT(None) and not stored and not others
+            elif len(taken) == 1 and stored:
+                good = len(stored) == 1 and registered and not others and taken[0][2] is not None and canon(taken[0][2]) == self_stores[stored[0]]
+                if good:
+                    used_insert_result[0] = True
+            else:
+                good = len(taken) == 1 and taken[0][2] is not None and canon(taken[0][2]) == canon(keep_ret) and not effs_
             ok = ok and good
             table.append((a, b, canon(taken[0][2]) if len(taken) == 1 and taken[0][2] else None))
     rep.check(ok, R, _w(upd.line, 'chart::update'), 'update:first-pop-wins',
@@ -807,6 +840,10 @@ def r_chart(m, rep, R):
             cell = k
     if cell is None:
         raise AnalysisError('%s: chart::cell not found' % H)
+    if ok and used_insert_result[0] and not [k for k in cell.kids if k.kind == 'CXXMethodDecl' and k.name in ('contains', 'emplace')]:
+        # the one method that stores and registers was judged above; there is no separate contains / emplace to look at
+        _r_chart_rest(m, rep, R, ch, cell)
+        return
     con = cxx.method(cell, 'contains')
     p = Paths(con).paths
     a = cxx.params_of(con)[0].name
@@ -832,6 +869,10 @@ def r_chart(m, rep, R):
     rep.check(ok, R, _w(emp.line, 'cell::emplace'), 'cell:emplace',
               'cell.emplace(item) records item.cat and returns a reference to the stored copy',
               'cell.emplace effects are %s, returns %s' % (effs, ret))
+    _r_chart_rest(m, rep, R, ch, cell)
+
+
+def _r_chart_rest(m, rep, R, ch, cell):
     # registration by span
     op = cxx.method(ch, 'operator()')
     pr = [p.name for p in cxx.params_of(op)]
